@@ -1,103 +1,211 @@
 import CollectionsC.Proofs.ListAlloc
-import CollectionsC.Properties.C07List
-import CollectionsC.Properties.C15List
-import CollectionsC.Properties.C18List
-/-! # C14 (lists) — `cc_list.c` and `cc_slist.c` use only their configured allocators
+import CollectionsC.Properties.C06List
+import CollectionsC.Properties.C08List
+/-! # C14 (lists) — `cc_list.c` and `cc_slist.c` use only the allocator triple they were given
 
 Statements and closing proofs.
 
-In the models every `mem_alloc`/`mem_calloc`/`mem_free` of the C text is an `m.alloc`/`m.free` on the
-**configured** ledger; the counter `Mem.libc` counts calls that would go to the C library allocator
-instead.  No model function touches it — that is what `libc_invariant` states, per operation, for
-histories, for iterators, for the derived-list builders (`sublist`, `copy_shallow`, `copy_deep`,
-`filter`: header and nodes come from the source's triple, fixes L4/S1) and for the array-based sorts.
-That the *C code* behaves like the model in this respect is what the correspondence check
-compares (`libc=a0 f0` in the `mem` section of every operation; the repaired defect L5 — `add_all`
-built the copies with the source list's allocator — was found by that comparison).
+Every list state carries the allocator triple stored in its header (`Chain.triple`: `.conf` — the
+caller's `mem_alloc/mem_calloc/mem_free` of `cc_list_new_conf`; `.libc` — `malloc/calloc/free` of
+`cc_list_new`).  In the models every `list->mem_alloc`/`mem_calloc`/`mem_free` of the C text is an
+`m.allocT l.triple`/`m.freeT l.triple` **of the list whose header the C code reads**; the ledger `Mem`
+keeps the two allocators apart (`confSide`: schedule, live, counters, refusals of the configured
+allocator; `libcSide`: live and counters of the C library).  `Mem.Frame t m m'` says that the side
+*other than* `t` is identical in `m` and `m'` — every counter, not just the live count.
 
-`allocator_independent`: the ledger influences an operation only through the outcomes of its
-allocator calls (`m.sched`): two ledgers with the same schedule give the same statuses, out-values
-and list states.  Hence a list on a pool behaves exactly like the same list on `malloc` as long as the
-pool does not refuse.
+What is proved (and would be violated by a model function that mirrored a hard-wired
+`cc_list_new()`/`malloc` inside a configured list — the defects L4/L5/S1 — or a release through the
+wrong header):
+* an operation charges and discharges only the **destination's** triple (`*_step_frame`); over
+  histories between lists on one triple the other allocator is never touched (`conf_uses_only_conf`,
+  `default_uses_only_libc`), and without exchange of roles the source list's allocator is never
+  touched (`source_allocator_untouched`);
+* a list on the C-library triple never reports `CC_ERR_ALLOC` and never consumes the refusal schedule;
+* constructors charge the requested triple, destructors release through the list's own triple;
+* derived lists inherit the source's triple and are built through it (`derived_inherits_triple`);
+* the array-based sorts take and release their array through the list's triple;
+* iterator programs touch only the list's triple; the zip mutators charge the first list's triple,
+  then the second list's, and give the first node back through the first list's triple on refusal
+  (`zip_charges_each_own_triple`);
+* `splice` across triples is outside the contract (`Compat`): it is the one operation that moves
+  blocks between lists, see the header of `C04.lean`.
+That the *C code* behaves like the model in this respect is what the correspondence check compares
+(`conf=… libc=a… f… llive=…` in the `mem` section of every operation).
 
-Quantifiers: all states satisfying the invariant, all operations and arguments, all histories, all
-ledgers. -/
+`allocator_independent`: the ledger influences an operation only through the outcomes of the
+configured allocator's calls (`m.sched`): two ledgers with the same schedule give the same statuses,
+out-values and list states.  Hence a list on a pool behaves exactly like the same list on `malloc` as
+long as the pool does not refuse.
+
+Quantifiers: all states satisfying the invariant, all assignments of triples, all operations and
+arguments, all histories, all ledgers. -/
 namespace CC.Properties.C14List
 open CC CC.Chain CC.ListHistory
 open CC.Spec
 open CC.Spec.LSeq (Op Out Params)
 
-/-! ## libc_invariant -/
+/-! ## only the destination's triple -/
 
-theorem dlist_libc_invariant (P : Params) (s : Chain × Chain) (op : Op) (m : Mem) (h : PairOk s m) :
-    (DList.step P s op m).2.2.libc = m.libc := (C04.dlist_step_refines P s op m h).2.2.2.2.1
+/-- one step charges and discharges only the triple of the destination list (the list whose header
+the C function reads) -/
+theorem dlist_step_frame (P : Params) (s : Chain × Chain) (op : Op) (m : Mem) (h : PairOk s m)
+    (hc : SpliceOk s.1.triple s.2.triple op) : Mem.Frame s.1.triple m (DList.step P s op m).2.2 :=
+  (C04.dlist_step_refines P s op m h hc).2.2.2.2.2.1
 
-theorem slist_libc_invariant (P : Params) (s : Chain × Chain) (op : Op) (m : Mem) (h : PairOk s m) :
-    (SList.step P s op m).2.2.libc = m.libc := (C04.slist_step_refines P s op m h).2.2.2.2.1
+theorem slist_step_frame (P : Params) (s : Chain × Chain) (op : Op) (m : Mem) (h : PairOk s m)
+    (hc : SpliceOk s.1.triple s.2.triple op) : Mem.Frame s.1.triple m (SList.step P s op m).2.2 :=
+  (C04.slist_step_refines P s op m h hc).2.2.2.2.2.1
 
-theorem dlist_history_libc_invariant (P : Params) (ops : List Op) (s : Chain × Chain) (m : Mem) (h : PairOk s m) :
-    (DList.run P s ops m).2.2.libc = m.libc := (C04.dlist_history_refines_skipping P ops s m h).2.2.2.2
+/-- **lists built with `*_new_conf` use only the configured allocator**: over any history between two
+lists on the configured triple every C-library counter (calls, releases, live blocks) stays what it was -/
+theorem conf_uses_only_conf (P : Params) (ops : List Op) (s : Chain × Chain) (m : Mem) (h : PairOk s m)
+    (h1 : s.1.triple = .conf) (h2 : s.2.triple = .conf) :
+    (DList.run P s ops m).2.2.libcSide = m.libcSide ∧ (SList.run P s ops m).2.2.libcSide = m.libcSide := by
+  rw [dlist_run_eq, slist_run_eq]
+  exact ⟨run_frame_same (C04.dlist_step_refines P) .conf ops s m h h1 h2,
+         run_frame_same (C04.slist_step_refines P) .conf ops s m h h1 h2⟩
 
-theorem slist_history_libc_invariant (P : Params) (ops : List Op) (s : Chain × Chain) (m : Mem) (h : PairOk s m) :
-    (SList.run P s ops m).2.2.libc = m.libc := (C04.slist_history_refines_skipping P ops s m h).2.2.2.2
+/-- **lists built with the default constructors use only the C library**: the configured allocator's
+schedule, live count and counters stay what they were — in particular no refusal is consumed — and no
+operation ever reports `CC_ERR_ALLOC` -/
+theorem default_uses_only_libc (P : Params) (ops : List Op) (s : Chain × Chain) (m : Mem) (h : PairOk s m)
+    (h1 : s.1.triple = .libc) (h2 : s.2.triple = .libc) :
+    (DList.run P s ops m).2.2.confSide = m.confSide ∧ (SList.run P s ops m).2.2.confSide = m.confSide := by
+  rw [dlist_run_eq, slist_run_eq]
+  exact ⟨run_frame_same (C04.dlist_step_refines P) .libc ops s m h h1 h2,
+         run_frame_same (C04.slist_step_refines P) .libc ops s m h h1 h2⟩
 
-/-- constructors, destructors and the callback variants -/
-theorem new_destroy_libc_invariant (l : Chain) (h : l.Inv) (m : Mem) :
-    (DList.new m).2.2.libc = m.libc ∧ (SList.new m).2.2.libc = m.libc ∧
-    (DList.destroy l m).libc = m.libc ∧ (SList.destroy l m).libc = m.libc ∧
-    (DList.destroyCb l m).2.libc = m.libc ∧ (SList.destroyCb l m).2.libc = m.libc := by
-  have hf : ∀ n (m : Mem), (Mem.freeN n m).libc = m.libc := by
-    intro n; induction n with
-    | zero => intro m; rfl
-    | succ k ih => intro m; simp only [Mem.freeN]; rw [ih, Mem.free_libc]
-  rw [h.eq, DList.destroy_ofList, SList.destroy_ofList, DList.destroyCb_ofList, SList.destroyCb_ofList, DList.new_eq, SList.new_eq]
-  refine ⟨?_, ?_, hf _ _, hf _ _, hf _ _, hf _ _⟩ <;> (split <;> exact Mem.alloc_libc m)
+/-- a step whose destination is on the C-library triple never reports `CC_ERR_ALLOC` -/
+theorem default_never_refused (P : Params) (s : Chain × Chain) (op : Op) (m : Mem) (h : PairOk s m)
+    (hc : SpliceOk s.1.triple s.2.triple op) (h1 : s.1.triple = .libc) :
+    (DList.step P s op m).1.st ≠ some .errAlloc ∧ (SList.step P s op m).1.st ≠ some .errAlloc := by
+  have d := C04.dlist_step_refines P s op m h hc
+  have sl := C04.slist_step_refines P s op m h hc
+  have fd : (DList.step P s op m).2.2.confSide = m.confSide := by have := d.2.2.2.2.2.1; rw [h1] at this; exact this
+  have fs : (SList.step P s op m).2.2.confSide = m.confSide := by have := sl.2.2.2.2.2.1; rw [h1] at this; exact this
+  have nd : (DList.step P s op m).2.2.nrefused = m.nrefused := by
+    have := congrArg (fun x => x.2.2.2.2) fd; exact this
+  have ns : (SList.step P s op m).2.2.nrefused = m.nrefused := by
+    have := congrArg (fun x => x.2.2.2.2) fs; exact this
+  exact ⟨fun c => by have := d.2.2.2.2.2.2.2.2.1 c; omega, fun c => by have := sl.2.2.2.2.2.2.2.2.1 c; omega⟩
 
-/-- derived lists are built on the source's (configured) triple, the array-based sorts obtain and
-release their array through it -/
-theorem derived_and_sort_libc_invariant (add : List Nat) (l : Chain) (h : l.Inv) (m : Mem)
-    (sortFn : List Nat → List Nat) (hlen : ∀ x, (sortFn x).length = x.length) :
-    (DList.builderResult add m).2.2.libc = m.libc ∧
-    (DList.sort sortFn l m).2.2.libc = m.libc ∧ (SList.sort sortFn l m).2.2.libc = m.libc := by
-  refine ⟨(C15List.builder_result add m).2.1, ?_, ?_⟩
-  · rw [h.eq, DList.sort_ofList sortFn hlen]
+/-- **the source list's allocator is never touched**: in a history without exchange of roles (mixed
+triples allowed, hence without `splice`) every allocator call goes through the destination's triple;
+both lists keep their triples -/
+theorem source_allocator_untouched (P : Params) (ops : List Op) (s : Chain × Chain) (m : Mem) (h : PairOk s m)
+    (hc : Compat s ops) (hsw : ∀ op, op ∈ ops → op ≠ .swapRoles) :
+    (Mem.Frame s.1.triple m (DList.run P s ops m).2.2 ∧ (DList.run P s ops m).2.1.1.triple = s.1.triple ∧
+      (DList.run P s ops m).2.1.2.triple = s.2.triple) ∧
+    (Mem.Frame s.1.triple m (SList.run P s ops m).2.2 ∧ (SList.run P s ops m).2.1.1.triple = s.1.triple ∧
+      (SList.run P s ops m).2.1.2.triple = s.2.triple) := by
+  rw [dlist_run_eq, slist_run_eq]
+  exact ⟨run_frame_dest (C04.dlist_step_refines P) ops s m h hc hsw, run_frame_dest (C04.slist_step_refines P) ops s m h hc hsw⟩
+
+/-! ## constructors, destructors -/
+
+/-- `new` charges exactly the requested triple; `destroy`/`destroy_cb` release every block through the
+list's own triple -/
+theorem new_destroy_frame (t : Triple) (l : Chain) (h : l.Inv) (m : Mem) (hl : l.abs.length + 1 ≤ m.liveT l.triple) :
+    Mem.Frame t m (DList.new t m).2.2 ∧ Mem.Frame t m (SList.new t m).2.2 ∧
+    (∀ r, (DList.new t m).2.1 = some r → r.triple = t) ∧ (∀ r, (SList.new t m).2.1 = some r → r.triple = t) ∧
+    Mem.Frame l.triple m (DList.destroy l m) ∧ Mem.Frame l.triple m (SList.destroy l m) ∧
+    Mem.Frame l.triple m (DList.destroyCb l m).2 ∧ Mem.Frame l.triple m (SList.destroyCb l m).2 := by
+  have d := C04.dlist_destroy_ledger l h m hl
+  have s := C04.slist_destroy_ledger l h m hl
+  have hn : Mem.Frame t m (DList.new t m).2.2 := by rw [DList.new_eq]; split <;> exact Mem.frame_allocT t m
+  have hr : ∀ r, (DList.new t m).2.1 = some r → r.triple = t := by
+    intro r hr; rw [DList.new_eq] at hr
+    by_cases a : (m.allocT t).1 = true
+    · simp only [a, if_true, Option.some.injEq] at hr; rw [← hr]; rfl
+    · simp [a] at hr
+  have e : SList.new t m = DList.new t m := (C08List.new_atomic t m).2.2.2.2
+  refine ⟨hn, by rw [e]; exact hn, hr, by rw [e]; exact hr, d.2.2.1, s.2.2.1, ?_, ?_⟩
+  · rw [d.2.2.2]; exact d.2.2.1
+  · rw [s.2.2.2]; exact s.2.2.1
+
+/-! ## derived lists, sorts -/
+
+/-- **derived lists inherit the source's triple**: whatever `sublist`, `copy_shallow`/`copy_deep`,
+`filter` of either list return is a list on the source's triple, and building it (header and every
+node; also the clean-up after a refusal) touched only that triple -/
+theorem derived_inherits_triple (l : Chain) (h : l.Inv) (m : Mem) (b e : Nat) (cp : Nat → Nat) (p : Nat → Bool) :
+    (∀ r, (DList.sublist l b e m).2.1 = some r → r.triple = l.triple) ∧ Mem.Frame l.triple m (DList.sublist l b e m).2.2 ∧
+    (∀ r, (DList.copy cp l m).2.1 = some r → r.triple = l.triple) ∧ Mem.Frame l.triple m (DList.copy cp l m).2.2 ∧
+    (∀ r, (DList.filter p l m).2.1 = some r → r.triple = l.triple) ∧ Mem.Frame l.triple m (DList.filter p l m).2.2 ∧
+    (∀ r, (SList.sublist l b e m).2.1 = some r → r.triple = l.triple) ∧ Mem.Frame l.triple m (SList.sublist l b e m).2.2 ∧
+    (∀ r, (SList.copy cp l m).2.1 = some r → r.triple = l.triple) ∧ Mem.Frame l.triple m (SList.copy cp l m).2.2 ∧
+    (∀ r, (SList.filter p l m).2.1 = some r → r.triple = l.triple) ∧ Mem.Frame l.triple m (SList.filter p l m).2.2 := by
+  have key : ∀ add r, (DList.builderResult l.triple add m).2.1 = some r → r.triple = l.triple := by
+    intro add r hr; rw [(C15List.builder_some l.triple add m r hr).1]; rfl
+  have fr : ∀ add, Mem.Frame l.triple m (DList.builderResult l.triple add m).2.2 := fun add => (C15List.builder_result l.triple add m).2.1
+  rw [C15List.dlist_sublist_correct l h, C15List.dlist_copy_correct cp l h, C15List.dlist_filter_correct p l h,
+    C15List.slist_sublist_correct l h, C15List.slist_copy_correct cp l h, C15List.slist_filter_correct p l h]
+  refine ⟨?_, ?_, key _, fr _, ?_, ?_, ?_, ?_, key _, fr _, ?_, ?_⟩ <;>
+    (split <;> first | exact key _ | exact fr _ | exact Mem.Frame.rfl' _ m | (intro r hr; cases hr))
+
+/-- the array-based sorts obtain and release their array through the list's own triple; the in-place
+merge sort calls no allocator at all -/
+theorem sort_frame (l : Chain) (h : l.Inv) (m : Mem) (sortFn : List Nat → List Nat) (hlen : ∀ x, (sortFn x).length = x.length)
+    {cmp : Nat → Nat → Int} (hc : LSeq.CmpPreorder cmp) :
+    Mem.Frame l.triple m (DList.sort sortFn l m).2.2 ∧ Mem.Frame l.triple m (SList.sort sortFn l m).2.2 ∧
+    (DList.sort sortFn l m).2.1.triple = l.triple ∧ (SList.sort sortFn l m).2.1.triple = l.triple ∧
+    (DList.sortInPlaceC cmp l m).2 = m := by
+  have fa := Mem.frame_allocT l.triple m
+  have ff := Mem.frame_freeT l.triple (m.allocT l.triple).2
+  refine ⟨?_, ?_, ?_, ?_, (C18List.sort_in_place_code_correct hc l h m).1⟩
+  · rw [h.eq, DList.sort_ofList sortFn hlen]; simp only [ofList_triple]
     repeat' split
-    all_goals simp [Mem.free_libc, Mem.alloc_libc]
-  · rw [h.eq, SList.sort_ofList sortFn hlen]
+    all_goals first | exact fa.trans ff | exact fa | exact Mem.Frame.rfl' _ m
+  · rw [h.eq, SList.sort_ofList sortFn hlen]; simp only [ofList_triple]
     repeat' split
-    all_goals simp [Mem.free_libc, Mem.alloc_libc]
+    all_goals first | exact fa.trans ff | exact fa | exact Mem.Frame.rfl' _ m
+  · rw [h.eq, DList.sort_ofList sortFn hlen]; simp only [ofList_triple]
+    repeat' split
+    all_goals rfl
+  · rw [h.eq, SList.sort_ofList sortFn hlen]; simp only [ofList_triple]
+    repeat' split
+    all_goals rfl
 
-/-- iterator mutators (the node of `add` comes from, the node of `remove` goes back to, the
-configured triple) -/
-theorem iter_libc_invariant (xs : List Nat) (c : LSeq.Cursor) (m : Mem) :
-    (∀ it, DList.ItRel xs c it →
-      (DList.iterRemove (ofList xs) it m).2.2.2.2.libc = m.libc ∧
-      (∀ x k, c.cur = some k → c.pos = k + 1 → (DList.iterAdd (ofList xs) it x m).2.2.2.libc = m.libc)) ∧
-    (∀ it, DList.DitRel xs c it →
-      (DList.diterRemove (ofList xs) it m).2.2.2.2.libc = m.libc ∧
-      (∀ x k, c.cur = some k → c.pos = k → (DList.diterAdd (ofList xs) it x m).2.2.2.libc = m.libc)) ∧
-    (∀ it, SList.ItRel xs c it →
-      (SList.iterRemove (ofList xs) it m).2.2.2.2.libc = m.libc ∧
-      (∀ x k, c.cur = some k → (SList.iterAdd (ofList xs) it x m).2.2.2.libc = m.libc)) := by
-  refine ⟨?_, ?_, ?_⟩
-  · intro it h
-    obtain ⟨it', e, _⟩ := DList.iterRemove_ofList xs c it m h
-    refine ⟨by rw [e]; split <;> simp [Mem.free_libc], ?_⟩
-    intro x k hc hp
-    obtain ⟨it', e, _⟩ := DList.iterAdd_ofList xs c it x k m h hc hp
-    rw [e]; split <;> exact Mem.alloc_libc m
-  · intro it h
-    obtain ⟨it', e, _⟩ := DList.diterRemove_ofList xs c it m h
-    refine ⟨by rw [e]; split <;> simp [Mem.free_libc], ?_⟩
-    intro x k hc hp
-    obtain ⟨it', e, _⟩ := DList.diterAdd_ofList xs c it x k m h hc hp
-    rw [e]; split <;> exact Mem.alloc_libc m
-  · intro it h
-    obtain ⟨it', e, _⟩ := SList.iterRemove_ofList xs c it m h
-    refine ⟨by rw [e]; split <;> simp [Mem.free_libc], ?_⟩
-    intro x k hc
-    obtain ⟨it', e, _⟩ := SList.iterAdd_ofList xs c it x k m h hc
-    rw [e]; split <;> exact Mem.alloc_libc m
+/-! ## iterators -/
+
+/-- whole iterator programs (ascending / descending iterator of `cc_list.c`, iterator of
+`cc_slist.c`) touch only the list's own triple: `C06List.dlist_iter_program_safe`,
+`dlist_diter_program_safe`, `slist_iter_program_safe` (second conjunct).  The zip mutators: one call of
+`zip_iter_add` charges the first list's triple, then the second list's, and on a refusal of the
+second node gives the first node back **through the first list's triple**; `zip_iter_remove` releases
+each node through its own list's triple — the ledger after the call is literally this expression -/
+theorem zip_charges_each_own_triple (t t2 : Triple) (xs ys : List Nat) (c : LSeq.Cursor) (m : Mem) (x1 x2 k : Nat)
+    (hc : c.cur = some k) :
+    (∀ z, DList.ZipRel xs ys c z → c.pos = k + 1 →
+      (DList.zipAdd (ofList t xs) (ofList t2 ys) z x1 x2 m).2.2.2.2 =
+        (if (m.allocT t).1 then (if ((m.allocT t).2.allocT t2).1 then ((m.allocT t).2.allocT t2).2
+          else ((m.allocT t).2.allocT t2).2.freeT t) else (m.allocT t).2) ∧
+      (DList.zipRemove (ofList t xs) (ofList t2 ys) z m).2.2.2.2.2 = (m.freeT t).freeT t2) ∧
+    (∀ z, SList.ZipRel xs ys c z →
+      (SList.zipAdd (ofList t xs) (ofList t2 ys) z x1 x2 m).2.2.2.2 =
+        (if (m.allocT t).1 then (if ((m.allocT t).2.allocT t2).1 then ((m.allocT t).2.allocT t2).2
+          else ((m.allocT t).2.allocT t2).2.freeT t) else (m.allocT t).2) ∧
+      (SList.zipRemove (ofList t xs) (ofList t2 ys) z m).2.2.2.2.2 = (m.freeT t).freeT t2) := by
+  refine ⟨fun z h hp => ?_, fun z h => ?_⟩
+  · obtain ⟨z', e, _⟩ := DList.zipAdd_ofList (t := t) (t2 := t2) xs ys c z x1 x2 k m h hc hp
+    obtain ⟨z'', e2, _⟩ := DList.zipRemove_ofList (t := t) (t2 := t2) xs ys c z m h
+    rw [e, e2]
+    refine ⟨by by_cases a : (m.allocT t).1 = true <;> by_cases b : ((m.allocT t).2.allocT t2).1 = true <;> simp [a, b], ?_⟩
+    simp [LSeq.zitRemove, hc]
+  · obtain ⟨z', e, _⟩ := SList.zipAdd_ofList (t := t) (t2 := t2) xs ys c z x1 x2 k m h hc
+    obtain ⟨z'', e2, _⟩ := SList.zipRemove_ofList (t := t) (t2 := t2) xs ys c z m h
+    rw [e, e2]
+    refine ⟨by by_cases a : (m.allocT t).1 = true <;> by_cases b : ((m.allocT t).2.allocT t2).1 = true <;> simp [a, b], ?_⟩
+    simp [LSeq.zitRemove, hc]
+
+/-- … and when both lists of a zip iterator sit on one triple, whole zip programs never touch the
+other allocator (per call; programs follow by `Mem.Frame.trans`) -/
+theorem zip_same_triple_frame (t : Triple) (m : Mem) :
+    Mem.Frame t m ((m.freeT t).freeT t) ∧ Mem.Frame t m (m.allocT t).2 ∧ Mem.Frame t m ((m.allocT t).2.allocT t).2 ∧
+    Mem.Frame t m (((m.allocT t).2.allocT t).2.freeT t) :=
+  ⟨(Mem.frame_freeT t m).trans (Mem.frame_freeT t _), Mem.frame_allocT t m,
+   (Mem.frame_allocT t m).trans (Mem.frame_allocT t _),
+   ((Mem.frame_allocT t m).trans (Mem.frame_allocT t _)).trans (Mem.frame_freeT t _)⟩
 
 /-! ## allocator_independent -/
 
@@ -107,44 +215,52 @@ theorem dlist_allocator_independent (P : Params) (s : Chain × Chain) (op : Op) 
     (hs : m1.sched = m2.sched) :
     (DList.step P s op m1).1 = (DList.step P s op m2).1 ∧ (DList.step P s op m1).2.1 = (DList.step P s op m2).2.1 ∧
     (DList.step P s op m1).2.2.sched = (DList.step P s op m2).2.2.sched := by
-  have e : s = (ofList s.1.abs, ofList s.2.abs) := by rw [← h.1.eq, ← h.2.1.eq]
-  rw [e]; exact DList.step_indep P _ _ op m1 m2 hs
+  have e : s = (ofList s.1.triple s.1.abs, ofList s.2.triple s.2.abs) := by rw [← h.1.eq, ← h.2.1.eq]
+  rw [e]; exact DList.step_indep P _ _ _ _ op m1 m2 hs
 
 theorem slist_allocator_independent (P : Params) (s : Chain × Chain) (op : Op) (m1 m2 : Mem) (h : PairOk s m1)
     (hs : m1.sched = m2.sched) :
     (SList.step P s op m1).1 = (SList.step P s op m2).1 ∧ (SList.step P s op m1).2.1 = (SList.step P s op m2).2.1 ∧
     (SList.step P s op m1).2.2.sched = (SList.step P s op m2).2.2.sched := by
-  have e : s = (ofList s.1.abs, ofList s.2.abs) := by rw [← h.1.eq, ← h.2.1.eq]
-  rw [e]; exact SList.step_indep P _ _ op m1 m2 hs
+  have e : s = (ofList s.1.triple s.1.abs, ofList s.2.triple s.2.abs) := by rw [← h.1.eq, ← h.2.1.eq]
+  rw [e]; exact SList.step_indep P _ _ _ _ op m1 m2 hs
 
 /-- whole histories: a list on one allocator behaves exactly like the same list on another one
 that answers the allocator calls the same way -/
 theorem dlist_history_allocator_independent (P : Params) (ops : List Op) (s : Chain × Chain) (m1 m2 : Mem)
-    (h1 : PairOk s m1) (h2 : PairOk s m2) (hs : m1.sched = m2.sched) :
+    (h1 : PairOk s m1) (h2 : PairOk s m2) (hc : Compat s ops) (hs : m1.sched = m2.sched) :
     (DList.run P s ops m1).1 = (DList.run P s ops m2).1 ∧ (DList.run P s ops m1).2.1 = (DList.run P s ops m2).2.1 := by
   rw [dlist_run_eq, dlist_run_eq]
-  have := run_indep (C04.dlist_step_refines P) (DList.step_indep P) ops s m1 m2 h1 h2 hs
+  have := run_indep (C04.dlist_step_refines P) (DList.step_indep P) ops s m1 m2 h1 h2 hc hs
   exact ⟨this.1, this.2.1⟩
 
 theorem slist_history_allocator_independent (P : Params) (ops : List Op) (s : Chain × Chain) (m1 m2 : Mem)
-    (h1 : PairOk s m1) (h2 : PairOk s m2) (hs : m1.sched = m2.sched) :
+    (h1 : PairOk s m1) (h2 : PairOk s m2) (hc : Compat s ops) (hs : m1.sched = m2.sched) :
     (SList.run P s ops m1).1 = (SList.run P s ops m2).1 ∧ (SList.run P s ops m1).2.1 = (SList.run P s ops m2).2.1 := by
   rw [slist_run_eq, slist_run_eq]
-  have := run_indep (C04.slist_step_refines P) (SList.step_indep P) ops s m1 m2 h1 h2 hs
+  have := run_indep (C04.slist_step_refines P) (SList.step_indep P) ops s m1 m2 h1 h2 hc hs
   exact ⟨this.1, this.2.1⟩
 
 /-- in particular: on any allocator that never refuses (a large enough pool, `malloc`) every history
 is exactly the ideal lists' history -/
 theorem never_refusing_allocator (P : Params) (ops : List Op) (s : Chain × Chain) (m : Mem) (h : PairOk s m)
-    (hs : m.sched = []) :
+    (hc : Compat s ops) (hs : m.sched = []) :
     (DList.run P s ops m).1 = (LSeq.run true P (s.1.abs, s.2.abs) ops).1 ∧
     (SList.run P s ops m).1 = (LSeq.run false P (s.1.abs, s.2.abs) ops).1 :=
-  ⟨(C04.dlist_history_refines P ops s m h hs).1, (C04.slist_history_refines P ops s m h hs).1⟩
+  ⟨(C04.dlist_history_refines P ops s m h hc hs).1, (C04.slist_history_refines P ops s m h hc hs).1⟩
 
 /-- builders depend on the ledger only through the schedule as well -/
-theorem builder_allocator_independent (add : List Nat) (m1 m2 : Mem) (hs : m1.sched = m2.sched) :
-    (DList.builderResult add m1).1 = (DList.builderResult add m2).1 ∧
-    (DList.builderResult add m1).2.1 = (DList.builderResult add m2).2.1 :=
-  ⟨(DList.builderResult_indep add m1 m2 hs).1, (DList.builderResult_indep add m1 m2 hs).2.1⟩
+theorem builder_allocator_independent (t : Triple) (add : List Nat) (m1 m2 : Mem) (hs : m1.sched = m2.sched) :
+    (DList.builderResult t add m1).1 = (DList.builderResult t add m2).1 ∧
+    (DList.builderResult t add m1).2.1 = (DList.builderResult t add m2).2.1 :=
+  ⟨(DList.builderResult_indep t add m1 m2 hs).1, (DList.builderResult_indep t add m1 m2 hs).2.1⟩
+
+/-! ## Non-vacuity: the same history on a configured pair, a default pair and a mixed pair -/
+example :
+    ((DList.run ⟨LSeq.predEven, LSeq.cmpNum⟩ (ofList .conf [1], ofList .conf [2, 3]) [.addAll, .removeFirst, .toArray] { live := 3 }).2.2.libcSide,
+     (DList.run ⟨LSeq.predEven, LSeq.cmpNum⟩ (ofList .libc [1], ofList .libc [2, 3]) [.addAll, .removeFirst, .toArray]
+        { liveLibc := 3, sched := [true] }).2.2.confSide,
+     (DList.run ⟨LSeq.predEven, LSeq.cmpNum⟩ (ofList .conf [1], ofList .libc [2, 3]) [.addAll, .removeFirst] { live := 1, liveLibc := 2 }).2.2.liveLibc) =
+    ((0, 0, 0, 0), ([true], 0, 0, 0, 0), 2) := by decide
 
 end CC.Properties.C14List
